@@ -239,6 +239,37 @@ def cycles_and_refcounts():
         res['class_refcount_delta'] = sys.getrefcount(Cyc) - before
     finally:
         optree.unregister_pytree_node(Cyc, namespace=NS)
+    # a treespec keeps working after its custom type is unregistered and every user reference to the registration's pieces is gone
+    def scoped():
+        class MyEntry(optree.PyTreeEntry):
+            def __call__(self, obj):
+                return obj.children[self.entry]
+
+        class Keep(U._CustomBase):
+            pass
+        fl = lambda x: (tuple(x.children), 'md')                 # noqa: E731
+        un = lambda m, c: Keep(list(c), 0)                         # noqa: E731
+        optree.register_pytree_node(Keep, fl, un, path_entry_type=MyEntry, namespace=NS)
+        obj = Keep([L(1), (L(2), L(3))], 0)
+        spec = optree.tree_structure(obj, namespace=NS)
+        before = (repr(spec), repr(spec.paths()), [type(e).__name__ for a in spec.accessors() for e in a], spec.num_leaves)
+        refs = [weakref.ref(MyEntry), weakref.ref(fl), weakref.ref(un), weakref.ref(Keep)]
+        optree.unregister_pytree_node(Keep, namespace=NS)
+        return spec, before, refs, obj
+    spec, before, refs, obj = scoped()
+    gc.collect()
+    gc.collect()
+    res['registration_alive_while_spec_lives'] = all(r() is not None for r in refs)
+    try:
+        accs = spec.accessors()
+        after = (repr(spec), repr(spec.paths()), [type(e).__name__ for a in accs for e in a], spec.num_leaves)
+        rebuilt = spec.unflatten([10, 20, 30])
+        res['spec_works_after_unregister_and_gc'] = after == before and type(rebuilt).__name__ == 'Keep' and accs[0](obj) is obj.children[0]
+    except Exception as ex:   # noqa: BLE001
+        res['spec_works_after_unregister_and_gc'] = False
+    del spec, accs, rebuilt, obj
+    gc.collect()
+    res['registration_released_with_spec'] = all(r() is None for r in refs[:3])
     return {'op': 'heap-gc', **res}
 
 
